@@ -29,7 +29,7 @@ class Spec(core.PropSpec):
     tiers = {"quick": dict(runs=16000, budget_s=40), "thorough": dict(runs=800000, budget_s=600)}
 
     def gen_plan(self, seed, tier):
-        return CL.gen_plan(seed, ["dist", "dist", "cb", "weighted", "random"])
+        return CL.gen_plan(seed, ["dist", "dist", "cb", "weighted", "random"], big=tier != "quick")
 
     def shrink_candidates(self, plan):
         return CL.candidates(plan)
